@@ -29,9 +29,35 @@ class Races:
     flipped = 0
 
 
+class ReadyProbe:
+    """Where the harness learns *when* a target told a source it was ready to receive (class-level wrapper around
+    BallCountHandler.wait_for_ready_to_receive, harness side only).  The world notes how much room the target physically
+    had at that instant; a later "fired-at-full-device" is then either a readiness answer that was already wrong
+    (no room when it was given) or a race between two sources that were both told "ready" (room taken afterwards)."""
+    world = None
+    installed = False
+
+
+def install_ready_probe():
+    if ReadyProbe.installed:
+        return
+    from mpf.devices.ball_device.ball_count_handler import BallCountHandler
+    orig = BallCountHandler.wait_for_ready_to_receive
+
+    async def wait_for_ready_to_receive(self, source):
+        res = await orig(self, source)
+        w = ReadyProbe.world
+        if w is not None:
+            w.note_ready(self.ball_device.name, getattr(source, "name", str(source)))
+        return res
+    BallCountHandler.wait_for_ready_to_receive = wait_for_ready_to_receive
+    ReadyProbe.installed = True
+
+
 def install_race_control():
     import asyncio
     from mpf.core.utility_functions import Util
+    install_ready_probe()
 
     async def first(futures, timeout=None, cancel_others=True):
         fs = []
@@ -87,6 +113,10 @@ TOPO = {
     "t3": dict(_COMMON, devices={"bd_trough": _TROUGH, "bd_plunger": _PLUNGER,
                                  "bd_saucer": {"switches": ["s_saucer"], "coil": "c_saucer", "target": "playfield", "eject_timeout": 2.0,
                                                "shot": True}}, balls={"bd_trough": 2}),
+    # two sources (trough and VUK) feed the one-ball plunger lane
+    "t7": dict(_COMMON, devices={"bd_trough": _TROUGH, "bd_plunger": _PLUNGER,
+                                 "bd_vuk": {"switches": ["s_vuk"], "coil": "c_vuk", "target": "bd_plunger", "eject_timeout": 3.0,
+                                            "shot": True}}, balls={"bd_trough": 2}),
 }
 # name -> (topology, config patches, script of actions taken at rest)
 SCRIPTS = {
@@ -105,12 +135,13 @@ SCRIPTS = {
     "stale-lock-request": ("t2b", None, [["event", "release_lock"], ["start"], ["add"], ["add"], ["drain"], ["drain"], ["drain"]]),
     "held-balls": ("t6", None, [["start"], ["shoot", "bd_lock"], ["add"], ["shoot", "bd_lock"], ["add"], ["shoot", "bd_lock"],
                                 ["event", "release_hold"], ["drain"], ["drain"], ["drain"]]),
+    "vuk-to-plunger": ("t7", None, [["start"], ["add"], ["shoot", "bd_vuk"], ["drain"], ["drain"]]),
     "two-attempts": ("t1", {"ball_devices": {"bd_plunger": {"max_eject_attempts": 2}}}, [["start"], ["drain"]]),
 }
 DEEP_SCRIPTS = ("one-ball-game", "mechanical-plunger", "two-attempts", "lock-shot", "saucer-shot")
 LONG_SCRIPTS = ("over-request", "stale-lock-request", "held-balls")
 QUICK_SCRIPTS = ("one-ball-game", "two-balls-in-play", "mechanical-plunger", "lock-shot", "saucer-shot", "plunger-lane-return",
-                 "over-request", "outhole", "full-trough", "stale-lock-request", "held-balls")
+                 "over-request", "outhole", "full-trough", "stale-lock-request", "held-balls", "vuk-to-plunger")
 MAX_REST_STEPS = 400
 
 
@@ -135,6 +166,7 @@ class BallDriver:
         self.loop = self.sys.loop
         self.t0 = self.loop.time()
         self.w = World(self.sys, TOPO[topo])
+        ReadyProbe.world = self.w
         self.pos = 0
         self.adds = 0
         self.requested = 0
@@ -432,6 +464,10 @@ class BallDriver:
         self.stats[name] = self.stats.get(name, 0) + n
 
     def violate(self, sig, what):
+        if sig.startswith("C04:fired-at-full-device") and sig.endswith(":room-taken-after-ready"):
+            self.double_eject = True
+        elif getattr(self, "double_eject", False):
+            sig += "~after-double-eject"        # aftermath of two sources racing for one free place (known finding)
         self.violations.append(("%s@%s[%s]" % (sig, self.script_name, "+".join(sorted(self.devs))), "%s  [history: %s]" % (what, self.hist)))
 
     def _errors(self, where):
